@@ -62,13 +62,13 @@ type modRecorder struct {
 	heaps   map[string]string // name -> sort
 	refs    map[string][]T    // heap -> refs stored to (nil entry = whole)
 	whole   map[string]bool
-	ghosts  map[string]bool
+	ghosts  map[string]string
 	globals map[*ssa.Global]bool
 	all     bool
 }
 
 func newRecorder() *modRecorder {
-	return &modRecorder{cells: map[*ssa.Alloc]bool{}, heaps: map[string]string{}, refs: map[string][]T{}, whole: map[string]bool{}, ghosts: map[string]bool{}, globals: map[*ssa.Global]bool{}}
+	return &modRecorder{cells: map[*ssa.Alloc]bool{}, heaps: map[string]string{}, refs: map[string][]T{}, whole: map[string]bool{}, ghosts: map[string]string{}, globals: map[*ssa.Global]bool{}}
 }
 
 // diffStates records the differences between a state at the loop head and a
@@ -94,7 +94,7 @@ func (r *modRecorder) diff(before, after *State) {
 	}
 	for n, g := range after.ghost {
 		if b, ok := before.ghost[n]; !ok || b.S != g.S {
-			r.ghosts[n] = true
+			r.ghosts[n] = g.Sort
 		}
 	}
 	for g, v := range after.globals {
@@ -189,8 +189,8 @@ func (x *Exec) enterBlock(st *State, fr *Frame, b *ssa.BasicBlock) bool {
 	for a := range rec2.cells {
 		rec.cells[a] = true
 	}
-	for g := range rec2.ghosts {
-		rec.ghosts[g] = true
+	for g, srt := range rec2.ghosts {
+		rec.ghosts[g] = srt
 	}
 	for g := range rec2.globals {
 		rec.globals[g] = true
@@ -322,13 +322,8 @@ func (x *Exec) havocRec(st *State, rec *modRecorder, stable map[string][]T) {
 		st.heaps[n] = fresh(n, sort)
 		st.modHeaps[n] = true
 	}
-	for g := range rec.ghosts {
-		cur, ok := st.ghost[g]
-		s := SInt
-		if ok {
-			s = cur.Sort
-		}
-		st.ghost[g] = fresh("ghost "+g, s)
+	for g, srt := range rec.ghosts {
+		st.ghost[g] = fresh("ghost "+g, srt)
 	}
 	for g := range rec.globals {
 		t := deref(g.Type())
